@@ -12,7 +12,7 @@ from mirsym.engine import TRUE, FALSE
 class Lane:
     name = 'lane'
     max_paths = 400000
-    time_cap = None
+    time_cap = int(__import__('os').environ.get('VERIF_LANE_CAP', '1500'))     # seconds per worker; beyond it the check is inconclusive, never 'passed'
     entry = None
 
     def __init__(self, ctx, *params):
